@@ -327,6 +327,7 @@ def _attribute(diag, cases):
         return None, summ
     for c in cases:
         if c.lines[0] <= line <= c.lines[1]:
+            summ["rel"] = line - c.lines[0]      # line inside the case's own code (1 = its first line)
             return c, summ
     return None, summ
 
